@@ -431,13 +431,21 @@ func Run(r *fw.Run) {
 	for name, gen := range map[string]func(*fw.Ctx) *wm.World{"ingress": c10.GenIngress, "route": c10.GenRoute, "ingress+route": c10.GenBoth} {
 		gen := gen
 		stride := map[bool]int{true: 400, false: 40}[q]
+		if q && name == "route" {
+			stride = 250 // the route product is twice the ingress product; its quick tier has a quarter of the other dimensions
+		}
 		if name == "ingress+route" {
 			stride = 2
 		}
 		fw.Explore(r, "list/"+name, fw.Full, func(c *fw.Ctx) listCase {
 			w := gen(c)
-			exp := c.Choose(2, "exposure") == 1 && len(w.ANPs) == 0 && w.BANP == nil
-			focus := fw.Pick(c, []string{"", "ingress-controller", "w1", "ns1/w1"}, "--focusworkload")
+			routeQuick := q && name == "route" // quick tier: the route product (the largest) without the exposure dimension and with two focus values
+			exp := !routeQuick && c.Choose(2, "exposure") == 1 && len(w.ANPs) == 0 && w.BANP == nil
+			fs := []string{"", "ingress-controller", "w1", "ns1/w1"}
+			if routeQuick {
+				fs = []string{"", "ns1/w1"}
+			}
+			focus := fw.Pick(c, fs, "--focusworkload")
 			c.Stride(stride)
 			return listCase{w.Infos(), w.Brief(), exp, focus}
 		}, evalList)
